@@ -60,7 +60,7 @@ func HarnessC13Grpc() {
 	c := &grpcConn{client: stub}
 	q := drvQueries[verifChoice("query", len(drvQueries))]
 	st, err := c.Prepare(q.text)
-	if q.text == `a = ` {
+	if q.noParse {
 		verifAssert(err != nil, "C13: a query text the parser rejects must be rejected by the grpc statement path")
 		verifReach("end")
 		return
